@@ -235,6 +235,7 @@ func C12GenEntropy(t *rapid.T, label string) C12Entropy {
 //	sig-s-add                                 s replaced by s + N mod L
 //	sig-R-add                                 R replaced by R + [N]B
 //	sig-R-bad                                 R replaced by a string that is not a ristretto255 encoding (Bytes)
+//	sig-R-bad-forged                          the same, with s := k*a (would verify if the bad R counted as the identity)
 //	sig-cancel                                s + N on this entry; the partner (C12Entry.Partner) carries s - N
 //	zero-sig, zero-pk                         zero-value Signature / PublicKey object
 //	failed-sig, failed-pk                     an object holding the honest value on which a failing
@@ -405,6 +406,11 @@ func (e C12Entry) Build() C12Built {
 		b.Altered = m.N != 0
 	case "sig-R-bad":
 		b.Sig = append(append([]byte(nil), m.Bytes...), hon.Bytes[32:]...)
+	case "sig-R-bad-forged":
+		// s = k*a for the challenge over the undecodable R: valid if (and only
+		// if) a verifier took the undecodable R for the identity element
+		k := ref.SrChallenge(e.M.Transcript(), pub, m.Bytes)
+		b.Sig = c12Mark(m.Bytes, ref.SMul(k, sk.Key))
 	case "zero-sig":
 		b.ZeroSig = true
 	case "zero-pk":
@@ -465,7 +471,7 @@ func c12BadSig(t *rapid.T, label string) []byte {
 }
 
 var c12MutKinds = []string{
-	"sig-flip", "ctx-flip", "msg-flip", "pk-other", "src", "sig-s-add", "sig-R-add", "pk-neg", "pk-add", "sig-s+L", "sig-unmark", "sig-R-bad",
+	"sig-flip", "ctx-flip", "msg-flip", "pk-other", "src", "sig-s-add", "sig-R-add", "pk-neg", "pk-add", "sig-s+L", "sig-unmark", "sig-R-bad", "sig-R-bad-forged",
 	"ctx-append", "ctx-trunc", "ctx-shift", "msg-append", "msg-trunc", "src-raw",
 }
 
@@ -498,7 +504,7 @@ func C12GenMut(t *rapid.T, label string, objects bool) C12Mut {
 		default:
 			m.N = rapid.IntRange(0, 511).Draw(t, label+"_bit")
 		}
-	case "sig-R-bad":
+	case "sig-R-bad", "sig-R-bad-forged":
 		m.Bytes = c12BadRist(t, label+"_R")
 	case "failed-sig":
 		m.Bytes = c12BadSig(t, label+"_bad")
